@@ -41,12 +41,63 @@ def _m(repo, cq, name):
     return fn
 
 
-def _mask_stores(cfg):
+class MaskStore:
+    """A write of mask_: direct `self.mask_[idx] = val` or through a one-store helper method `self.h(idx, flag)`."""
+
+    def __init__(self, node, idx, val, via=None):
+        self.node, self.idx, self.val, self.via = node, idx, val, via
+        self.id = node.id
+        self.ast = node.ast
+
+    def value(self) -> str:
+        return _norm_val(self.val)
+
+
+def _norm_val(v) -> str:
+    """Canonical text of a stored mask value: constants, and `a if c else b` with constant / negated conditions folded."""
+    if isinstance(v, ast.Constant) and isinstance(v.value, (bool, int)):
+        return str(int(v.value))
+    if isinstance(v, ast.IfExp):
+        t, a, b = v.test, v.body, v.orelse
+        if isinstance(t, ast.Constant):
+            return _norm_val(a if t.value else b)
+        if isinstance(t, ast.UnaryOp) and isinstance(t.op, ast.Not):
+            return _norm_val(ast.IfExp(test=t.operand, body=b, orelse=a))
+        return f"{_norm_val(a)} if {ast.unparse(t)} else {_norm_val(b)}"
+    return ast.unparse(v)
+
+
+class _Subst(ast.NodeTransformer):
+    def __init__(self, m):
+        self.m = m
+
+    def visit_Name(self, n):
+        return self.m.get(n.id, n)
+
+
+def _mask_stores(cfg, cls=None):
+    import copy
     out = []
+    helpers = {}
+    if cls is not None:
+        for meth in cls.body:
+            if isinstance(meth, ast.FunctionDef):
+                sts = [x for x in ast.walk(meth) if isinstance(x, ast.Assign) and isinstance(x.targets[0], ast.Subscript) and dotted(x.targets[0].value) == "self.mask_"]
+                params = [a.arg for a in meth.args.args[1:]]
+                if len(sts) == 1 and meth.name not in ("add_sample", "__init__") and isinstance(sts[0].targets[0].slice, ast.Name) and sts[0].targets[0].slice.id in params:
+                    helpers[meth.name] = (meth, sts[0], params)
     for n in cfg.nodes:
         s = n.ast
         if n.kind == "stmt" and isinstance(s, ast.Assign) and isinstance(s.targets[0], ast.Subscript) and dotted(s.targets[0].value) == "self.mask_":
-            out.append(n)
+            out.append(MaskStore(n, s.targets[0].slice, s.value))
+        elif n.kind == "stmt" and isinstance(s, ast.Expr) and isinstance(s.value, ast.Call) and isinstance(s.value.func, ast.Attribute) and dotted(s.value.func.value) == "self" and s.value.func.attr in helpers:
+            meth, st, params = helpers[s.value.func.attr]
+            m = {p: a for p, a in zip(params, s.value.args)}
+            for k in s.value.keywords:
+                m[k.arg] = k.value
+            idx = _Subst(m).visit(copy.deepcopy(st.targets[0].slice))
+            val = _Subst(m).visit(copy.deepcopy(st.value))
+            out.append(MaskStore(n, idx, val, via=meth.name))
     return out
 
 
@@ -57,7 +108,7 @@ def run(ck, repo: Repo, tier: str):
     cfg = nf.cfg_of(fn)
     site = CQ + ".add_sample"
     sc = Scope(None, mi, {}, site)
-    masks = _mask_stores(cfg)
+    masks = _mask_stores(cfg, repo.cls(CQ))
     advs = [n for n in cfg.nodes if n.kind == "stmt" and isinstance(n.ast, ast.Assign) and dotted(n.ast.targets[0]) == "self.insert_idx"]
     ck.need(len(advs) == 2, f"{site}: expected two advances of insert_idx (transition + successor row), found {len(advs)}")
     for a in advs:
@@ -67,16 +118,17 @@ def run(ck, repo: Repo, tier: str):
     a_tail = next(a for a in advs if cfg.control_deps(a.id))
     # R1: a clear store at the write slot before each advance
     def idx_of(n):
-        return nf.poly(n.ast.targets[0].slice, sc, None).canon()
-    clears_main = [n for n in masks if idx_of(n) == "self.insert_idx" and ast.unparse(n.ast.value) == "0" and not cfg.control_deps(n.id)]
+        return nf.poly(n.idx, sc, None).canon()
+    clears_main = [n for n in masks if idx_of(n) == "self.insert_idx" and n.value() == "0" and not cfg.control_deps(n.id)]
     ok = len(clears_main) == 1 and cfg.dominates(clears_main[0].id, a_main.id)
     ck.ob("R1-mask-clear-on-write", site, "clear-transition-slot", ok, f"{[short(n.ast) for n in clears_main]}", "" if ok else "the slot being overwritten must be removed from the valid start indices before the position advances: otherwise windows cross the write position into overwritten data", loc(mi, fn))
-    clears_tail = [n for n in masks if idx_of(n) in ("self.insert_idx", "mod(self.insert_idx, self.buffer_size)") and ast.unparse(n.ast.value) == "0" and cfg.control_deps(n.id)]
+    clears_tail = [n for n in masks if idx_of(n) in ("self.insert_idx", "mod(self.insert_idx, self.buffer_size)") and n.value() == "0" and cfg.control_deps(n.id)]
     ok = len(clears_tail) == 1 and cfg.dominates(a_main.id, clears_tail[0].id) and cfg.dominates(clears_tail[0].id, a_tail.id)
     ck.ob("R1-mask-clear-on-write", site, "clear-successor-row", ok, f"{[short(n.ast) for n in clears_tail]}", "" if ok else "the extra successor row written at an episode end must be excluded from the start indices", loc(mi, fn))
     # R2 enabling store
-    enables = [n for n in masks if ast.unparse(n.ast.value) == "1"]
-    ck.ob("R2-enable-offset-agreement", site, "single-enable", len(enables) == 1, f"{[short(n.ast) for n in enables]}", "" if len(enables) == 1 else "expected one enabling store", loc(mi, fn))
+    enables = [n for n in masks if n.value() == "1"]
+    ck.need(len(enables) == 1, f"{site}: {len(enables)} enabling stores `mask_[..] = 1` in add_sample (unrecognised idiom: the mask protocol was restructured)")
+    ck.ob("R2-enable-offset-agreement", site, "single-enable", True, f"{[short(n.ast) for n in enables]}", "", loc(mi, fn))
     for n in enables:
         idx = idx_of(n)
         g = [(t, v) for b, lab in cfg.control_deps(n.id) for t, v in cfg._lits(cfg.nodes[b].ast.test, lab, b) if t not in ("True",)]
@@ -92,17 +144,18 @@ def run(ck, repo: Repo, tier: str):
     ck.ob("R2-enable-offset-agreement", site, "episode-counter", ok, f"{[ast.unparse(n.ast) for n in incs]}", "" if ok else "episode_timesteps must count this step before the guard is evaluated", loc(mi, fn))
     # R3 tail
     tails = [n for n in masks if n not in enables and n not in clears_main and n not in clears_tail]
-    ck.ob("R3-tail", site, "single-tail-store", len(tails) == 1, f"{[short(n.ast, 70) for n in tails]}", "" if len(tails) == 1 else "expected one store for the episode tail", loc(mi, fn))
+    ck.need(len(tails) == 1, f"{site}: {len(tails)} tail stores in add_sample (unrecognised idiom: the mask protocol was restructured)")
+    ck.ob("R3-tail", site, "single-tail-store", True, f"{[short(n.ast, 70) for n in tails]}", "", loc(mi, fn))
     if len(tails) == 1:
         t = tails[0]
         g = [(x, v) for b, lab in cfg.control_deps(t.id) for x, v in cfg._lits(cfg.nodes[b].ast.test, lab, b)]
         okg = g == [("sample['terminated'] or sample['truncated']", True)]
         ck.ob("R3-tail", site, "episode-end-branch", okg, f"under {[x for x, v in g]}", "" if okg else "the tail is (de)activated exactly when the episode ended", loc(mi, t.ast))
-        v = ast.unparse(t.ast.value)
+        v = t.value()
         okv = v == "0 if sample['truncated'] else 1"
         ck.ob("R3-tail", site, "truncated-disables", okv, f"value = {v}", "" if okv else "truncated tails must be masked out (0), terminated tails enabled (1)", loc(mi, t.ast))
         # index expression via reaching definition
-        idx = t.ast.targets[0].slice
+        idx = t.idx
         if isinstance(idx, ast.Name):
             ds = cfg.defs_of(t.id, idx.id)
             idx = ds[0].value if len(ds) == 1 else idx
@@ -122,9 +175,51 @@ def run(ck, repo: Repo, tier: str):
 
     # ---- R4 ------------------------------------------------------------------------------------------------------
     f2 = _m(repo, CQ, "_sample_idx")
-    body = [ast.unparse(s) for s in f2.body if not (isinstance(s, ast.Expr) and isinstance(s.value, ast.Constant))]
-    ok = body == ["nz = np.nonzero(self.mask_)[0]", "indices = rng.integers(0, len(nz), size=batch_size)", "return nz[indices]"]
-    ck.ob("R4-start-from-mask", CQ + "._sample_idx", "uniform-over-enabled", ok, " ; ".join(body), "" if ok else "start indices must be drawn uniformly among the slots enabled in mask_", loc(mi, f2))
+    c2 = nf.cfg_of(f2)
+    rets = [n for n in c2.nodes if n.kind == "stmt" and isinstance(n.ast, ast.Return)]
+    ck.need(len(rets) == 1, f"{CQ}._sample_idx: {len(rets)} returns (unrecognised idiom)")
+    s2 = Scope(c2, mi, {p: Poly.atom(p, {p}, {p}) for p in positional_params(f2)}, CQ + "._sample_idx")
+    got = nf.poly(rets[0].ast.value, s2, rets[0].id).canon()
+    want = "nonzero(self.mask_)[0][rng.integers(0, len(nonzero(self.mask_)[0]), size=batch_size)]"
+    if got == want:
+        ck.ob("R4-start-from-mask", CQ + "._sample_idx", "uniform-over-enabled", True, f"return {got}", "", loc(mi, f2))
+    else:
+        # a cached / derived attribute instead of the live mask? then every writer of mask_ must refresh it (derived-state coherence)
+        attrs = sorted({x.attr for x in ast.walk(f2) if isinstance(x, ast.Attribute) and isinstance(x.ctx, ast.Load) and dotted(x.value) == "self" and x.attr not in ("mask_",)})
+        cls = repo.cls(CQ)
+        derived = []
+        for a in attrs:
+            for meth in cls.body:
+                if isinstance(meth, ast.FunctionDef):
+                    for x in ast.walk(meth):
+                        if isinstance(x, ast.Assign) and any(dotted(t) == f"self.{a}" for t in x.targets) and "self.mask_" in ast.unparse(x.value):
+                            derived.append(a)
+        derived = sorted(set(derived))
+        if derived:
+            stale = []
+            for meth in cls.body:
+                if not isinstance(meth, ast.FunctionDef):
+                    continue
+                meth._module = mi
+                mc = nf.cfg_of(meth)
+                for n in mc.nodes:
+                    if n.kind == "stmt" and isinstance(n.ast, ast.Assign) and isinstance(n.ast.targets[0], ast.Subscript) and dotted(n.ast.targets[0].value) == "self.mask_":
+                        for a in derived:
+                            refresh = {m.id for m in mc.nodes if m.kind == "stmt" and isinstance(m.ast, ast.Assign) and any(dotted(t) == f"self.{a}" for t in m.ast.targets)}
+                            # calls of helpers that themselves refresh are not followed: a direct refresh must lie on every path to the exit
+                            pth = mc.paths_avoiding(n.id, mc.exit, refresh)
+                            if pth is not None:
+                                stale.append((meth.name, n, a))
+            if stale:
+                mname, n, a = stale[0]
+                ck.ob("R4-start-from-mask", CQ + "._sample_idx", f"stale-derived:{a}", False, f"start indices read from self.{a} (derived from mask_); `{short(n.ast)}` in {mname} does not refresh it",
+                      f"`self.{a}` caches a value computed from mask_, but {len(stale)} write(s) of mask_ (first: {mname} line {n.lineno}) leave it unchanged: sampling can start at slots that were just overwritten / disabled", loc(mi, n.ast))
+            else:
+                raise AnalysisError(f"{CQ}._sample_idx: start indices come from derived attribute(s) {derived} (unrecognised idiom)")
+        elif "self.mask_" not in got:
+            ck.ob("R4-start-from-mask", CQ + "._sample_idx", "uniform-over-enabled", False, f"return {got[:120]}", "start indices are not derived from mask_: disabled slots (other episodes, truncated tails, overwritten data) can be returned", loc(mi, f2))
+        else:
+            raise AnalysisError(f"{CQ}._sample_idx: returns `{got[:100]}` (unrecognised idiom)")
     f3 = _m(repo, RB + "SubtrajectoryReplayBufferPER", "_sample_idx")
     rets = [n for n in ast.walk(f3) if isinstance(n, ast.Return)]
     ok = len(rets) == 1 and ast.unparse(rets[0].value) == "self.priority.prioritized_sampling(self.current_len, batch_size, rng, self.mask_)"
@@ -156,6 +251,7 @@ def run(ck, repo: Repo, tier: str):
         (("k in ['observation', 'action']", False), ("k == 'next_observation'", True)): "indices[:, -1]",
         (("k in ['observation', 'action']", False), ("k == 'next_observation'", False)): "indices",
     }
+    ck.need(table, f"{CQ}.sample_batch: per-field index selection of the no-intermediate view not found (unrecognised idiom)")
     norm = {tuple(sorted(k)): v for k, v in table.items()}
     wn = {tuple(sorted(k)): v for k, v in want_tbl.items()}
     ok = norm == wn
